@@ -286,11 +286,19 @@ def per_call_state(ctx, rule, vle):
 def dispatch(ctx, d2, vle):
     f = vle.methods['__call__']
 
-    def decide(t, st):
-        s = src(t)
-        if 'conversion' in s:
+    from ..pathcond import scenario_decide
+
+    def _no_conv(t):
+        # scenario: no reactive conversion is given
+        if isinstance(t, ast.Name) and 'conversion' in t.id:
+            return False
+        if isinstance(t, ast.Compare) and len(t.ops) == 1 and isinstance(t.comparators[0], ast.Constant) and t.comparators[0].value is None \
+                and 'conversion' in src(t.left):
+            return isinstance(t.ops[0], (ast.Is, ast.Eq))
+        if isinstance(t, ast.Call) and 'conversion' in src(t) and not any(isinstance(x, ast.Compare) for x in ast.walk(t)):
             return False
         return None
+    decide = scenario_decide(_no_conv)
     ps, trunc = run_paths(f.node, decide=decide, max_paths=20000, follow_except=True)
     seen = {}
     for p in ps:
